@@ -97,25 +97,36 @@ InitOb(p) ==
                                  view |-> BotFor(p), drops |-> 0]],
     trk  |-> [k \in Q.trks  |-> "none"] ]
 
-InitFor(p) ==
+\* the initial state of program p as a record (used by Init and by the trace spec's reset)
+I0(p) ==
   LET Q == Progs[p]  TS == 1..Len(Q.threads) IN
-  /\ pid   = p
-  /\ pc    = [t \in TS |-> 1]
-  /\ regs  = [t \in TS |-> <<>>]
-  /\ st    = [t \in TS |-> IF t = 1 THEN "run" ELSE "new"]
-  /\ sub   = [t \in TS |-> ""]
-  /\ tv    = [t \in TS |-> [cur |-> BotFor(p), acq |-> BotFor(p), rel |-> BotFor(p)]]
-  /\ scv   = BotFor(p)
-  /\ mo    = [x \in Q.atoms |-> << [id |-> INIT, val |-> 0] >>]
-  /\ mview = (INIT :> BotFor(p))
-  /\ glued = {}
-  /\ relx  = [t \in TS |-> [x \in Q.atoms |-> BotFor(p)]]
-  /\ cells = [c \in Q.cells |-> [w |-> [u \in TS |-> 0], r |-> [u \in TS |-> 0]]]
-  /\ ash   = [x \in Q.atoms |-> [mut |-> [u \in TS |-> 0], uld |-> [u \in TS |-> 0],
-                                 ld  |-> [u \in TS |-> 0], sto |-> [u \in TS |-> 0]]]
-  /\ ob    = InitOb(p)
-  /\ end   = "run"
-  /\ out   = "none"
+  [ pc    |-> [t \in TS |-> 1],
+    regs  |-> [t \in TS |-> <<>>],
+    st    |-> [t \in TS |-> IF t = 1 THEN "run" ELSE "new"],
+    sub   |-> [t \in TS |-> ""],
+    tv    |-> [t \in TS |-> [cur |-> BotFor(p), acq |-> BotFor(p), rel |-> BotFor(p)]],
+    scv   |-> BotFor(p),
+    mo    |-> [x \in Q.atoms |-> << [id |-> INIT, val |-> 0] >>],
+    mview |-> (INIT :> BotFor(p)),
+    glued |-> {},
+    relx  |-> [t \in TS |-> [x \in Q.atoms |-> BotFor(p)]],
+    cells |-> [c \in Q.cells |-> [w |-> [u \in TS |-> 0], r |-> [u \in TS |-> 0]]],
+    ash   |-> [x \in Q.atoms |-> [mut |-> [u \in TS |-> 0], uld |-> [u \in TS |-> 0],
+                                  ld  |-> [u \in TS |-> 0], sto |-> [u \in TS |-> 0]]],
+    ob    |-> InitOb(p) ]
+
+InitFor(p) ==
+  LET i == I0(p) IN
+  /\ pid = p /\ pc = i.pc /\ regs = i.regs /\ st = i.st /\ sub = i.sub /\ tv = i.tv /\ scv = i.scv
+  /\ mo = i.mo /\ mview = i.mview /\ glued = i.glued /\ relx = i.relx /\ cells = i.cells
+  /\ ash = i.ash /\ ob = i.ob /\ end = "run" /\ out = "none"
+
+\* every iteration starts from the same initial state (C16): the primed copy of InitFor
+ResetTo(p) ==
+  LET i == I0(p) IN
+  /\ pid' = p /\ pc' = i.pc /\ regs' = i.regs /\ st' = i.st /\ sub' = i.sub /\ tv' = i.tv /\ scv' = i.scv
+  /\ mo' = i.mo /\ mview' = i.mview /\ glued' = i.glued /\ relx' = i.relx /\ cells' = i.cells
+  /\ ash' = i.ash /\ ob' = i.ob /\ end' = "run" /\ out' = "none"
 
 Init == \E p \in 1..Len(Progs) : InitFor(p)
 
